@@ -39,6 +39,8 @@ type Contract struct {
 	Asserts     []CallAssert
 	Locals      map[string]string // local alias -> "name#ordinal"
 	MayPanic    bool
+	NilableRecv bool              // the method tolerates a nil receiver (no call-site obligation, no entry assumption)
+	Nilable     map[string]bool   // parameters of func/interface type that may be nil
 	File        string
 	Line        int
 }
@@ -210,6 +212,17 @@ func (db *ContractDB) load(path string) error {
 		case "may_panic":
 			need()
 			cur.MayPanic = true
+		case "nilable_receiver":
+			need()
+			cur.NilableRecv = true
+		case "nilable":
+			need()
+			if cur.Nilable == nil {
+				cur.Nilable = map[string]bool{}
+			}
+			for _, n := range strings.Split(rest, ",") {
+				cur.Nilable[strings.TrimSpace(n)] = true
+			}
 		case "mode":
 			need()
 			cur.Mode = rest
